@@ -918,6 +918,22 @@ theorem errorsOK_model_partialT (pm : List Path) (root : Shape) (var : VarTable)
   rw [validatePartialT_of_agree pm root var rules o hag]
   exact errorsOK_model_partial pm rules o single hs
 
+/-- non-vacuity of `errorsOK_model_partialT` / `validatePartialT_of_agree`: for every input there is a rule table that
+    agrees with the model's resolution at the leaves — the one it induces -/
+example (pm : List Path) (root : Shape) (var : VarTable) :
+    ∀ p ∈ leafPaths pm, ownTags (inducedRules root var (leafPaths pm)) p = ownTagsT root var p :=
+  fun p hp => lemma_ownTags_induced root var _ p hp
+
+/-- non-vacuity of `partialT_iff`: without an error limit nothing is truncated, and a small body is within the
+    default field limit -/
+example (root : Shape) (var : VarTable) :
+    let pm := ["id".toList, "tags".toList, "tags.1".toList]
+    truncOf (validatePartialT pm root var ⟨0, 0, []⟩) = false ∧ (leafPaths pm).length ≤ maxLeaves ⟨0, 0, []⟩ := by
+  refine ⟨?_, ?_⟩
+  · rw [validatePartialT, partialFrom_trunc, capLoop_unlimited]
+  · show (leafPaths _).length ≤ 10000
+    rw [leafPaths, sortPaths_length]; decide
+
 /-! ### the redaction walk -/
 
 /-- **values of paths covered by the redactor never appear**: if the redactor covers any path the printed value
